@@ -878,7 +878,9 @@ impl RawAutomaton {
         let (transitions, markers) = RawAutomaton::filter_map_transitions(
             &transitions,
             |state| renaming.get(&state).copied(),
-            transitions.len() - self.final_states.len(),
+            // The initial state is kept even when it is final.
+            transitions.len() - self.final_states.len()
+                + usize::from(self.final_states.contains(&self.initial_state)),
             0,
         );
         Self {
